@@ -26,6 +26,7 @@ META = {
     "assumptions": ["element types stored in Array/HashTable are relocatable by byte copy"],
 }
 META["explanation"] += " " + "(O13) a constructor of QExpression / Value assigns an owning union member only over the zero state left by the union's default initialiser, never after another union member was written by the initialiser list."
+META["explanation"] += " " + "(O14-target) Memory::Dispose(&x): x is a union member of this object or reached through a storage pointer, never a parameter, local or ordinary member. (O15-order) a range Dispose bounded by End()/Size() is not preceded on any path by a write of the size. (O16-redispose) after a manual Dispose of parts of a container's elements none of its element-destroying members is called on it. BORROW additionally: Deallocate of a base pointer kills every pointer into the same (old) storage while the block returned by an allocating accessor is a new generation; element-owned references die with Drop/Clear/Reset."
 
 ALLOWED_ALLOC_CLASSES = {"Qentem::Array", "Qentem::String", "Qentem::StringStream", "Qentem::HashTable", "Qentem::HArray",
                          "Qentem::HList", "Qentem::Tags::TagBit"}
@@ -157,8 +158,10 @@ def run(ctx):
     rules.append(r)
 
     # ---------------- O14 what may be disposed in place
-    from rules.common import rule_dispose_target
+    from rules.common import rule_dispose_target, rule_dispose_order, rule_redispose
     rules.append(rule_dispose_target(ctx, m))
+    rules.append(rule_dispose_order(ctx, m))
+    rules.append(rule_redispose(ctx, m))
 
     # ---------------- O10 destroyed member
     r = Rule("O10-destroyed", "a member destroyed in place is not used again before it is re-initialised", floor=3)
